@@ -132,7 +132,8 @@ class FabricRun(object):
           f.start()
         elif kind == 'stop':
           f.stop()
-          out = self.kernel_alive()
+          # any delivery thread the kernel still knows as running (whatever handles the fabric kept)
+          out = any(t.role in ('fabric.fifo', 'fabric.lifo') and t.state != kernel.DONE for t in self.sim.threads)
         elif kind == 'clear':
           f.clear()
           for s in self.subs:
@@ -222,6 +223,8 @@ def run_fabric(sc, sched, max_steps=150000, settle=True):
   sim.monitors.append(run.monitor)
   if sc.get('stalls'):
     sim.stall_plan = {int(k): v for k, v in sc['stalls'].items()}
+    if sc.get('stall_roles'):
+      sim.stall_roles = tuple(sc['stall_roles'])
 
   def on_pq_get(pq, item, stamp, snap):
     # C08: nothing that had to go first may still be queued
